@@ -1418,7 +1418,7 @@ Examples:
     def _imono(x, ascending=True):
         idx = index[0]
         if idx is None: return _mono(x, ascending=ascending)
-        if not hasattr(idx, '__len__') or len(idx)==1: return x
+        if not hasattr(idx, '__len__') or len(idx)<=1: return x
         if not hasattr(x, '__len__') or len(x)==1: return x
         idx = sorted(itemgetter(*idx)(range(len(x))))
         for i,j in zip(idx,_mono(itemgetter(*idx)(x), ascending=ascending)):
@@ -1490,7 +1490,7 @@ Examples:
     def _isort(x, ascending=True):
         idx = index[0]
         if idx is None: return _sort(x, ascending=ascending)
-        if not hasattr(idx, '__len__') or len(idx)==1: return x
+        if not hasattr(idx, '__len__') or len(idx)<=1: return x
         if not hasattr(x, '__len__') or len(x)==1: return x
         idx = sorted(itemgetter(*idx)(range(len(x))))
         for i,j in zip(idx,_sort(itemgetter(*idx)(x), ascending=ascending)):
